@@ -386,3 +386,4 @@ def twin_write(sess, game, A, B, op):
 
 
 from . import files_osu  # noqa: E402,F401
+from . import files_qua  # noqa: E402,F401
